@@ -216,7 +216,7 @@ class Sealer:
         return out
 
 
-def randomize_generations(rng, data, share=0.6):
+def randomize_generations(rng, data, share=0.8):
     """Give a share of the live ordinary inodes a random i_generation, the way the kernel numbers the inodes it
     creates (debugfs and mke2fs leave 0 everywhere), and re-seal everything keyed to it: the inode itself, its extent
     blocks, its directory leaf blocks and htree nodes.  Returns the new image bytes and the number of inodes changed."""
@@ -266,7 +266,7 @@ def _field(rng, s, base, fields, limit=None):
     return name, cur, new
 
 
-def gen_struct_faults(rng, data, n=1, reseal_p=0.5, kinds=None):
+def gen_struct_faults(rng, data, n=1, reseal_p=0.5, kinds=None, boost=None):
     """n structure-addressed faults on image bytes `data`.  Returns (faults, description list).
     Each fault: {off, bytes(hex), what, cls}.  With probability reseal_p the covering checksum is
     recomputed (cls gets the suffix '~sealed')."""
@@ -297,8 +297,12 @@ def gen_struct_faults(rng, data, n=1, reseal_p=0.5, kinds=None):
         return inodes
 
     weights = [("sb", 3), ("gd", 4), ("bbitmap", 3), ("ibitmap", 2), ("inode", 6), ("extent_root", 4), ("extent_block", 3),
-               ("indirect", 2), ("dirent", 5), ("dx", 3), ("xattr_block", 3), ("xattr_inode", 2), ("special_inode", 3),
-               ("pointer", 5), ("bitmap_csum", 2), ("sb_geometry", 2)]
+               ("indirect", 4), ("dirent", 5), ("dx", 3), ("xattr_block", 3), ("xattr_inode", 2), ("special_inode", 3),
+               ("pointer", 5), ("bitmap_csum", 2), ("sb_geometry", 2), ("lpf", 2), ("dup_name", 2), ("bitmap_padding", 2)]
+    if fs.has("orphan_file") and fs.sb.get("s_orphan_file_inum"):
+        weights.append(("orphan_file", 2))
+    if boost:
+        weights = [(k, w * boost.get(k, 1)) for k, w in weights]
     if isinstance(kinds, dict):
         weights = sorted(kinds.items())
     elif kinds:
@@ -367,6 +371,16 @@ def gen_struct_faults(rng, data, n=1, reseal_p=0.5, kinds=None):
                     if not cand:
                         continue
                     ino, i = rng.choice(cand)
+                elif kind == "indirect":
+                    # a block-mapped inode; for the three tree roots preferably one whose tree exists
+                    cand = [(n_, i) for n_, i in li if not (i.flags & 0x80000) and not (i.flags & 0x10000000) and fs.has_block_map(i)]
+                    if not cand:
+                        continue
+                    ind_k = rng.below(15) if rng.chance(0.5) else 12 + rng.below(3)
+                    if ind_k >= 12 and rng.chance(0.8):
+                        used = [(n_, i) for n_, i in cand if s.u32(fs.inode_loc(n_) + 40 + 4 * ind_k)]
+                        cand = used or cand
+                    ino, i = rng.choice(cand)
                 else:
                     ino, i = rng.choice(li)
                 ioff = fs.inode_loc(ino)
@@ -388,7 +402,7 @@ def gen_struct_faults(rng, data, n=1, reseal_p=0.5, kinds=None):
                 elif kind == "indirect":
                     if (i.flags & 0x80000) or (i.flags & 0x10000000) or not fs.has_block_map(i):
                         continue
-                    k = rng.below(15)
+                    k = ind_k
                     cur = s.u32(ioff + 40 + 4 * k)
                     new = new_value(rng, cur, 4)
                     s.p32(ioff + 40 + 4 * k, new)
@@ -406,8 +420,156 @@ def gen_struct_faults(rng, data, n=1, reseal_p=0.5, kinds=None):
                     else:
                         name, cur, new = _field(rng, s, xo + 4, XENT)
                         what, cls = "inode[%d] in-inode xattr entry0.%s %#x->%#x" % (ino, name, cur, new), "xattr_inode." + name
+                if special(ino) and cls and not cls.startswith("special_inode."):
+                    cls = "special_inode." + cls.split(".", 1)[1]
                 if seal:
                     s.seal_inode(ino)
+            elif kind == "orphan_file":
+                # a block of the orphan file: an entry, or the magic / checksum in its 8-byte tail
+                try:
+                    oi = fs.read_inode(fs.sb["s_orphan_file_inum"])
+                    ext, _tree = fs.extents(oi)
+                except refext4.FormatError:
+                    continue
+                blks = [p_ + k_ for _l, p_, n_, _u in ext for k_ in range(min(n_, 64))]
+                if not blks:
+                    continue
+                blk = rng.choice(blks)
+                o = blk * bs
+                how = rng.below(3)
+                if how == 0:
+                    cur = s.u32(o + bs - 4)
+                    new = new_value(rng, cur, 4)
+                    s.p32(o + bs - 4, new)
+                    what, cls = "orphan file block %d checksum %#x->%#x" % (blk, cur, new), "orphan_file.ob_checksum"
+                elif how == 1:
+                    cur = s.u32(o + bs - 8)
+                    new = new_value(rng, cur, 4)
+                    s.p32(o + bs - 8, new)
+                    what, cls = "orphan file block %d magic %#x->%#x" % (blk, cur, new), "orphan_file.ob_magic"
+                else:
+                    k = rng.below((bs - 8) // 4)
+                    cur = s.u32(o + 4 * k)
+                    li = live_inodes()
+                    new = rng.choice([rng.choice(li)[0] if li else 12, fs.sb["s_inodes_count"], fs.sb["s_inodes_count"] + 1, 1, 0xFFFFFFFF])
+                    if new == cur:
+                        continue
+                    s.p32(o + 4 * k, new)
+                    what, cls = "orphan file block %d entry[%d] %d->%d" % (blk, k, cur, new), "orphan_file.entry"
+                    if seal and fs.csum:
+                        c = crc32c(fs.csum_seed, struct.pack("<I", oi.ino))
+                        c = crc32c(c, struct.pack("<I", oi.generation))
+                        c = crc32c(c, struct.pack("<Q", blk))
+                        c = crc32c(c, bytes(s.d[o:o + bs - 8]))
+                        s.p32(o + bs - 4, c)
+                if how != 2:
+                    seal = False
+            elif kind == "bitmap_padding":
+                # the bits of a bitmap block behind the last block / inode of the group (outside the bitmap checksum)
+                which = rng.below(2)
+                nbits = fs.clusters_per_group if which == 0 else fs.inodes_per_group
+                if nbits >= bs * 8:
+                    which = 1
+                    nbits = fs.inodes_per_group
+                    if nbits >= bs * 8:
+                        continue
+                gs = [g for g in range(fs.group_count) if not fs.group_flags(g) & (2 if which == 0 else 1)]
+                if not gs:
+                    continue
+                g = rng.choice(gs)
+                gd = fs.group_desc(g)
+                blk = gd["bg_block_bitmap"] if which == 0 else gd["bg_inode_bitmap"]
+                if not (0 < blk < fs.sb["s_blocks_count"]):
+                    continue
+                bit = rng.weighted([(nbits, 2), (bs * 8 - 1, 1), (rng.range(nbits, bs * 8 - 1), 3)])
+                o = blk * bs + bit // 8
+                if rng.chance(0.6) or bit // 8 + 1 >= bs:
+                    s.w(o, bytes([s.d[o] & ~(1 << (bit % 8)) & 0xFF]))
+                    how = "bit %d cleared" % bit
+                else:
+                    ln = min(rng.choice([1, 4, 64]), bs - bit // 8 - 1)
+                    s.w(o + 1, b"\0" * ln)
+                    how = "%d byte(s) behind bit %d zeroed" % (ln, bit)
+                what, cls = "%s bitmap[%d] padding %s" % ("block" if which == 0 else "inode", g, how), \
+                    ("bbitmap" if which == 0 else "ibitmap") + ".padding"
+                seal = False
+            elif kind in ("lpf", "dup_name"):
+                dirs = [(n_, i) for n_, i in live_inodes() if (i.mode & 0xF000) == 0x4000 and not (i.flags & 0x10000000)]
+                if not dirs:
+                    continue
+                if kind == "lpf":
+                    # lost+found is the one object e2fsck itself re-creates: its inode, or the root's entry for it
+                    lpf = [(n_, i) for n_, i in dirs if n_ == 11]
+                    root = [(n_, i) for n_, i in dirs if n_ == 2]
+                    if not lpf or not root:
+                        continue
+                    if rng.chance(0.6):
+                        ino, i = lpf[0]
+                        ioff = fs.inode_loc(ino)
+                        if rng.chance(0.4):
+                            # a file type that does not exist
+                            cur = s.u16(ioff)
+                            new = (cur & 0x0FFF) | rng.choice([0x0000, 0x3000, 0x5000, 0x7000, 0x9000, 0xB000, 0xD000, 0xE000, 0xF000])
+                            s.p16(ioff, new)
+                            name = "i_mode"
+                        else:
+                            name, cur, new = _field(rng, s, ioff, [f for f in INODE_FIELDS if f[0] in
+                                                                   ("i_mode", "i_links_count", "i_flags", "i_dtime", "i_size_lo")], fs.inode_size)
+                        if seal:
+                            s.seal_inode(ino)
+                        what, cls = "inode[11 lost+found].%s %#x->%#x" % (name, cur, new), "inode." + name
+                    else:
+                        ino, i = root[0]
+                        done = False
+                        for lblk, pblk in fs.dir_blocks(i):
+                            o = pblk * bs
+                            p = 0
+                            while p + 8 <= bs:
+                                rl = s.u16(o + p + 4)
+                                if s.u32(o + p) == 11 and s.d[o + p + 6] == 10:
+                                    name, cur, new = _field(rng, s, o + p, [f for f in DIRENT if f[0] in ("inode", "name_len", "file_type")])
+                                    if seal:
+                                        s.seal_dir_leaf(ino, pblk)
+                                    what, cls = "root entry for lost+found %s %#x->%#x" % (name, cur, new), "dirent." + name
+                                    done = True
+                                    break
+                                if rl < 8 or rl % 4:
+                                    break
+                                p += rl
+                            if done:
+                                break
+                        if not done:
+                            continue
+                else:
+                    # two entries of one directory block get the same name
+                    ino, i = rng.choice(dirs)
+                    blocks = fs.dir_blocks(i)
+                    if not blocks:
+                        continue
+                    lblk, pblk = rng.choice(blocks)
+                    o = pblk * bs
+                    ents = []
+                    p = 0
+                    while p + 8 <= bs and len(ents) < 400:
+                        rl = s.u16(o + p + 4)
+                        nl = s.d[o + p + 6]
+                        if s.u32(o + p) and nl and not (nl <= 2 and bytes(s.d[o + p + 8:o + p + 8 + nl]) in (b".", b"..")):
+                            ents.append((p, rl, nl))
+                        if rl < 8 or rl % 4:
+                            break
+                        p += rl
+                    if len(ents) < 2:
+                        continue
+                    a, b = rng.sample(ents, 2)
+                    if b[1] < 8 + a[2]:
+                        a, b = b, a
+                    if b[1] < 8 + a[2]:
+                        continue
+                    s.w(o + b[0] + 6, bytes([a[2]]))
+                    s.w(o + b[0] + 8, bytes(s.d[o + a[0] + 8:o + a[0] + 8 + a[2]]))
+                    if seal:
+                        s.seal_dir_leaf(ino, pblk)
+                    what, cls = "dir inode[%d] lblk %d entry@%d takes the name of entry@%d" % (ino, lblk, b[0], a[0]), "dirent.dup_name"
             elif kind == "bitmap_csum":
                 # a stale bitmap checksum inside a descriptor that itself verifies (bitmap written, descriptor not, or
                 # the reverse); only groups whose bitmap is in use
@@ -499,7 +661,7 @@ def gen_struct_faults(rng, data, n=1, reseal_p=0.5, kinds=None):
                         s.p32(ioff + 104, new)
                         what, cls = "inode[%d].i_file_acl %d->%d (blocks_count %d)" % (ino, cur, new, bc), "inode.i_file_acl_lo@limit"
                     elif sub == "i_block":
-                        k = rng.below(15)
+                        k = rng.below(15) if rng.chance(0.5) else 12 + rng.below(3)
                         cur = s.u32(ioff + 40 + 4 * k)
                         new = rng.choice([bc, bc, bc + 1, bc - 1, max(fdb - 1, 0)])
                         if new == cur:
@@ -537,17 +699,48 @@ def gen_struct_faults(rng, data, n=1, reseal_p=0.5, kinds=None):
                 li = [(n_, i) for n_, i in live_inodes() if (i.flags & 0x80000) and not (i.flags & 0x10000000)]
                 rng.shuffle(li)
                 done = False
+                cands = []
                 for ino, i in li[:40]:
                     try:
                         _e, tree = fs.extents(i)
                     except refext4.FormatError:
                         continue
-                    if not tree:
-                        continue
+                    if tree:
+                        cands.append((ino, i, tree, [b for b in tree if s.u16(b * bs + 6) > 0 and s.u16(b * bs + 2) > 0]))
+                # (trees with interior nodes, and the interior nodes in them, are few: give them a fair share)
+                deep = [c for c in cands if c[3]]
+                for ino, i, tree, interior in ([rng.choice(deep)] if deep and rng.chance(0.7) else []) + cands[:1]:
                     blk = rng.choice(tree)
+                    if interior and rng.chance(0.5):
+                        blk = rng.choice(interior)
                     o = blk * bs
                     entries = s.u16(o + 2)
                     depth = s.u16(o + 6)
+                    if depth > 0 and entries and rng.chance(0.6):
+                        # an index entry that leads back into the tree: to its own block, to another node of the same
+                        # tree, or (appended) a further entry doing so
+                        k = rng.below(entries)
+                        tgt = rng.choice([blk, blk, rng.choice(tree)])
+                        if rng.chance(0.6) and entries < s.u16(o + 4):
+                            last = o + 12 + 12 * (entries - 1)
+                            eo = o + 12 + 12 * entries
+                            s.w(eo, struct.pack("<IIHH", s.u32(last) + 1000, tgt & 0xFFFFFFFF, 0, 0))
+                            s.p16(o + 2, entries + 1)
+                            name, cur, new = "ei_leaf_lo(appended, cycle)", 0, tgt
+                        else:
+                            eo = o + 12 + 12 * k
+                            cur = s.u32(eo + 4)
+                            new = tgt
+                            if cur == new:
+                                continue
+                            s.p32(eo + 4, new)
+                            name = "ei_leaf_lo(cycle)"
+                        name_cls = "ei_leaf_lo@cycle"
+                        if seal:
+                            s.seal_extent_block(ino, blk)
+                        what, cls = "inode[%d] extent block %d %s %#x->%#x" % (ino, blk, name, cur, new), "extent_block." + name_cls
+                        done = True
+                        break
                     if rng.chance(0.4) or entries == 0:
                         name, cur, new = _field(rng, s, o, EXT_HDR)
                     else:
